@@ -199,8 +199,8 @@ func (c *gctx) keyTypeNode(label string, kind int) string {
 			c.hints[n] = append(c.hints[n], strVal(s))
 		}
 	case 8: // no rule at all: the example itself is the one key known to be admitted (DESIGN §4)
-		n.Tok, n.Str = `"plain/key"`, "plain/key"
-		c.hints[n] = append(c.hints[n], strVal("plain/key"))
+		n.Tok, n.Str = `"plain/key/x"`, "plain/key/x"
+		c.hints[n] = append(c.hints[n], strVal("plain/key/x"))
 	case 7: // a rule that has nothing to say about strings next to length bounds
 		n.Tok, n.Str = `"nnnnnnnnn"`, "nnnnnnnnn"
 		n.Rules = append(n.Rules, TokRule("minLength", "9"), BoolRule("nullable", true), TokRule("maxLength", "9"))
